@@ -184,7 +184,9 @@ def rule_undodual(ctx):
     # producer: one append of the spend result per non-skipped input
     acfg = ctx.cfg(adv)
     spends = calls_to(ctx, adv, ain, spend.key)
-    apps = calls_canon(ctx, adv, ain, 'undo_info.append')
+    from .roles import AdvanceNames
+    names = AdvanceNames(ctx, adv)
+    apps = calls_canon(ctx, adv, ain, f'{names.undo_list}.append')
     okp = len(spends) == 1 and len(apps) == 1
     wit = None
     if okp:
@@ -199,7 +201,7 @@ def rule_undodual(ctx):
     n += 1
     # undo_info of the block is what is stored, under the block height
     sto = calls_canon(ctx, adv, adv.node, 'self.undo_infos.append')
-    oks = len(sto) == 1 and norm(sto[0].args[0]) == '(undo_info, block.height)'
+    oks = len(sto) == 1 and norm(sto[0].args[0]) == f'({names.undo_list}, block.height)'
     ctx.check(oks, 'C03.UNDODUAL', ctx.key(adv, None, 'stored under the block height'),
               'the block\'s undo info is queued as (undo_info, block.height)',
               'the block\'s undo info is not queued under its own height', loc=ctx.loc(adv, adv.node))
@@ -450,7 +452,8 @@ def rule_trunc(ctx):
                         and c.func.attr == 'append' and norm(c.args[0]) == keyv and not q.in_body(c, ifs[0].body)]
                 keep_ok = cond and sl_ok and brk and len(dels) == 1
                 whyl = f'reverse={rev}, idx>0 test={cond}, kept prefix ok={sl_ok}, stops at first kept row={brk}, emptied rows deleted={len(dels) == 1}'
-            okl = rev and keep_ok and norm(kws.get('prefix')) == 'hashX'
+            outer_l = [p for p, _f in q.enclosing_chain(lp, hb.node) if isinstance(p, ast.For)]
+            okl = rev and keep_ok and bool(outer_l) and norm(kws.get('prefix')) == norm(outer_l[0].target)
         ctx.check(okl, 'C03.TRUNC', ctx.key(hb, None, 'row walk'),
                   'rows of a script hash are walked newest first: emptied rows are deleted, the first row with survivors keeps its prefix and ends the walk',
                   'the row walk does not truncate exactly the newest entries: ' + whyl, loc=ctx.loc(hb, hb.node))
@@ -505,13 +508,15 @@ def rule_range(ctx):
     if len(rets) != 1:
         raise AnalysisError(f'{f.key}: expected a single `return start, count`')
     sv, cv = [norm(e) for e in rets[0].value.elts]
-    hdef = [s for s in q.assigns(ctx, f, 'height')]
-    h_ok = len(hdef) == 1 and ctx.res.canon(hdef[0].value, f) == 'self.state.height'
+    hdef = [s for s in f.own_nodes() if isinstance(s, ast.Assign) and isinstance(s.targets[0], ast.Name)
+            and ctx.res.canon(s.value, f) == 'self.state.height']
+    h_ok = len(hdef) == 1
+    hname = hdef[0].targets[0].id if h_ok else 'height'
     top_ifs = [s for s in f.node.body if isinstance(s, ast.If)]
     if len(top_ifs) != 1:
         raise AnalysisError(f'{f.key}: expected one natural/forced branch')
     br = top_ifs[0]
-    want = q.linear(ctx, f, ast.parse(f'{sv} + {cv} - height - 1', mode='eval').body)
+    want = q.linear(ctx, f, ast.parse(f'{sv} + {cv} - {hname} - 1', mode='eval').body)
     for body, label in ((br.body, 'natural reorg branch'), (br.orelse, 'forced reorg branch')):
         last = None
         for s in body:
